@@ -254,5 +254,41 @@ PROPS['C07'] = Prop(
     outside='spurious wake-ups (deliberately excluded); real time (timeouts are a nondeterministic stub); more than 2 waiters; std::condition_variable itself (the policy type stands in for it)',
     assumptions=['liveness is checked as safety on terminal states: a state in which no thread can run, a waiter is parked, events are pending and the notify counter is 0 is a lost wake-up'])
 
+_FT = ('%s (lowered with -fexceptions); state reached fault-free, then ONE operation runs with fault injection enabled: every operator new, every callback/listener/predicate body and every copy/move of the tracked callback and payload types '
+       'is a fault point and the engine forks "throws / does not throw" at each of them (F=%d fault(s) per path); afterwards the object is observed, used again and destroyed; ledger + engine heap accounting')
+def _ft(name, cls, what, f=1, **kw):
+    # native replay with clang -O1 builds only: the number of fault points on a path (copy/move constructor calls, and operator new calls that LLVM may elide at -O1) depends on front end and optimisation level
+    return Run(name, 'faults.cpp', {'CLASS': cls}, exc=True, own_new=True, faults=f, covers=6, native=('clang-O1-san', 'clang-O1'), bounds=_FT % (what, f), **kw)
+PROPS['C09'] = Prop(
+    quick=[_ft('faults_cl', 0, 'CallbackList with 1..3 callbacks: append / invoke / copy-construct / copy-assign / move-assign+swap', optional_covers=(3,)),
+           _ft('faults_queue', 1, 'EventQueue with 0..3 pending events and a recycled slot: enqueue / process / processOne / processIf / peekEvent / takeEvent', optional_covers=(5,)),
+           _ft('faults_disp', 2, 'EventDispatcher: appendListener (existing and new event), via ScopedRemover / CounterRemover / ConditionalRemover, dispatch, copy', optional_covers=(3, 5)),
+           _ft('faults_hcl', 3, 'HeterCallbackList: append / invoke / copy-construct / copy-assign / move-assign+swap', optional_covers=(3,))],
+    thorough=[_ft('faults_cl_f2', 0, 'CallbackList', 2, optional_covers=(3,), budget_s=1700), _ft('faults_queue_f2', 1, 'EventQueue', 2, optional_covers=(5,), budget_s=1700),
+              _ft('faults_disp_f2', 2, 'EventDispatcher + removers', 2, optional_covers=(3, 5), budget_s=1700), _ft('faults_hcl_f2', 3, 'HeterCallbackList', 2, optional_covers=(3,), budget_s=1700)],
+    outside='more than F faults per path; faults in more than one operation of a history; HeterEventQueue/HeterEventDispatcher under faults; exceptions thrown by key comparison',
+    assumptions=['operator new is replaced in the harness TU so that allocation failure is a fault point (also inside libstdc++: make_shared, list nodes, vector growth, std::function storage)',
+                 'two-phase unwinding is reduced to: pop frames to the nearest invoke, enter its landing pad, match catch clauses by type-info identity'])
+
+_C8 = 'tracked build (every construction/destruction of callback and payload objects is counted; use after destruction and double destruction are flagged through a magic word; the engine accounts every heap object and reports leaks at the end): '
+PROPS['C08'] = Prop(
+    quick=[Run('c8_cl_history_k3', 'cl_history.cpp', {'KK': 3, 'TRACKED': None}, covers=8, optional_covers=(3, 4), bounds=_C8 + 'C01 histories, K=3; after every step the live callback instances equal the model'),
+           Run('c8_cl_nested_a2', 'cl_nested.cpp', {'N0': 3, 'AA': 2, 'DD': 2, 'TRACKED': None}, covers=6, optional_covers=(5,), bounds=_C8 + 'C02 nested programs, 3 callbacks, A=2: a removed callback is released once no invocation that was running is in progress'),
+           Run('c8_q_history_byvalue_k3', 'q_history.cpp', {'KK': 3, 'RA': 1, 'PAYLOAD': 1}, covers=11, optional_covers=(11, 12), bounds=_C8 + 'C05 histories, K=3, RA=1, payload by value: exactly the pending events own live payloads; clearEvents releases before returning; recycled slots'),
+           Run('c8_q_history_byref_k3', 'q_history.cpp', {'KK': 3, 'RA': 0, 'PAYLOAD': 2}, covers=11, optional_covers=(11, 12, 4, 5), bounds=_C8 + 'C05 histories, K=3, payload by const reference'),
+           Run('c8_heter_queue_k2', 'heter.cpp', {'OBJ': 2, 'KK': 2}, covers=6, optional_covers=(1, 2, 3, 4, 5), bounds=_C8 + 'C14 heterogeneous queue, K=2: slots recycled between prototypes of different types'),
+           _ft('c8_faults_queue', 1, 'EventQueue (exceptions): a throwing listener/predicate/copy/allocation never leaks or double-destroys a payload', optional_covers=(5,)),
+           _ft('c8_faults_cl', 0, 'CallbackList (exceptions): failed copies and additions release every callback copy', optional_covers=(3,)),
+           Run('c8_cl_threads_s1_p2', 'cl_threads.cpp', {'TT': 2, 'SS': 1}, preempt=2, covers=4, optional_covers=(2,), mt=True, bounds=_C8 + 'C03 two-thread schedules (S=1, P=2): no node or callback is leaked (shared_ptr cycle) under any interleaving')],
+    thorough=[Run('c8_cl_history_k4', 'cl_history.cpp', {'KK': 4, 'TRACKED': None}, covers=8, budget_s=1700, bounds=_C8 + 'C01 histories, K=4'),
+              Run('c8_cl_nested_a3', 'cl_nested.cpp', {'N0': 3, 'AA': 3, 'DD': 2, 'TRACKED': None}, covers=6, budget_s=1700, bounds=_C8 + 'C02 nested programs, A=3'),
+              Run('c8_q_history_byvalue_k4', 'q_history.cpp', {'KK': 4, 'RA': 1, 'PAYLOAD': 1}, covers=11, optional_covers=(11, 12), budget_s=1700, bounds=_C8 + 'C05 histories K=4 by value'),
+              Run('c8_q_history_moveonly_k4', 'q_history.cpp', {'KK': 4, 'RA': 1, 'PAYLOAD': 3}, covers=11, optional_covers=(11, 12, 7), budget_s=1700, bounds=_C8 + 'C05 histories K=4 move-only'),
+              Run('c8_heter_queue_k3', 'heter.cpp', {'OBJ': 2, 'KK': 3}, covers=6, budget_s=1700, bounds=_C8 + 'C14 heterogeneous queue, K=3'),
+              _ft('c8_faults_queue_f2', 1, 'EventQueue (exceptions)', 2, optional_covers=(5,), budget_s=1700), _ft('c8_faults_cl_f2', 0, 'CallbackList (exceptions)', 2, optional_covers=(3,), budget_s=1700),
+              Run('c8_cl_threads_s2_p1', 'cl_threads.cpp', {'TT': 2, 'SS': 2, 'OPSET': 1}, preempt=1, covers=4, mt=True, budget_s=1700, bounds=_C8 + 'C03 two-thread schedules S=2, P=1')],
+    outside='the bounds of the underlying harnesses (C01, C02, C05, C14, C09, C03); copies/moves/swaps of whole containers are covered by the engine heap accounting in C10, not by a tracked build',
+    assumptions=['not a separate exploration: the same harnesses as C01/C02/C05/C14/C09/C03 built with counted callback and payload types'])
+
 HOOK_COMMITS = []
 EBMC_PROPS = []
